@@ -147,6 +147,18 @@ CHECKS["C01"] = dict(
     design_ref="DESIGN.md#c01",
 )
 
+CHECKS["C02"] = dict(
+    category="exploration",
+    text="Negative cases are drawn through the strategy the engine builds (modes [negative] and [positive, negative]) for the C01 "
+    "document pools plus the classes the statement names ({} schemas, bare string headers/path parameters, additionalProperties-only "
+    "objects, optional bodies, no inputs); per case: case label, at least one declared part labelled negative, each negative part "
+    "present and - judged on the raw captured value - invalid for the independent location schema, each positive part valid; "
+    "surely-violable operations must yield cases, surely-unviolable ones must be skipped.",
+    note="Judged on the generated (pre-coercion) value; violability is only judged for the clear cases.",
+    technique="runtime monitoring: raw-value capture + label/content consistency oracle over thousands of draws",
+    design_ref="DESIGN.md#c02",
+)
+
 NOT_APPLICABLE = {}
 
 
